@@ -30,6 +30,8 @@ Definition invalid_max_age_uses_expires : bool := true.
 
 (* shape checked: filter_cookies skips a cookie unless request_url.path.startswith(cookie['path']) *)
 
+(* checked: _cookie_helpers._COOKIE_PATTERN takes each of 28 Expires dates (RFC 1123 / RFC 850 / asctime / numeric zone x 7 weekdays) as one value and still sees the next attribute *)
+
 (* filter_cookies: schemes over which Secure cookies may be sent *)
 Definition secure_schemes : list (list N) := [[104; 116; 116; 112; 115]; [119; 115; 115]].
 
